@@ -24,6 +24,11 @@ def make_inputs(ctx, n_valid, n_mut):
         g = Gen(random.Random(rng.randrange(1 << 30)), typed=True, gnu=(i % 4 == 0), kr=(i % 5 == 0))
         text = g.program()
         cases.append(("valid", i % 4 if i % 3 else 2, "a", text))
+        if i % 5 == 0:
+            # ... and under random parse options (standard, every extension / translation switch, comment mode): the tree properties do not
+            # depend on what the options make of the text
+            ro = "%d,1,%d,%d,%s" % (rng.randrange(4), rng.randrange(3), rng.randrange(4), "".join(rng.choice("01d") for _ in range(31)))
+            cases.append(("valid-random-options", ro, "a", text))
     base = [c[3] for c in cases]
     for i in range(n_mut):
         t = base[rng.randrange(len(base))]
